@@ -4,6 +4,7 @@ usage: tools/verify_seeded.py <src_root e.g. /tmp/wt> <out.json> [ids...]"""
 import json, os, subprocess, sys, glob, xml.etree.ElementTree as ET, tempfile, shutil
 
 SRC, OUT = sys.argv[1], sys.argv[2]
+PREFIX = os.environ.get("SEEDED_PREFIX", "")          # e.g. R2 for the round-2 output directories R2C01-out
 ONLY = sys.argv[3:]
 WT = "/tmp/wt/verify"
 PY = "/venv/bin/python"
@@ -26,9 +27,9 @@ if os.path.exists(WT):
 sh("git -C /repo worktree add --detach " + WT + " HEAD")
 base = suite(WT)
 results = json.load(open(OUT)) if os.path.exists(OUT) else {}
-for d in sorted(glob.glob(os.path.join(SRC, "C??-out", "m*"))):
-    pid = os.path.basename(os.path.dirname(d))[:3]
-    key = pid + "-" + os.path.basename(d)
+for d in sorted(glob.glob(os.path.join(SRC, PREFIX + "C??-out", "m[0-9]"))):
+    pid = os.path.basename(os.path.dirname(d))[len(PREFIX):len(PREFIX) + 3]
+    key = pid + "-" + (PREFIX.lower() if PREFIX else "") + os.path.basename(d)
     if ONLY and key not in ONLY and pid not in ONLY:
         continue
     patch, demo = os.path.join(d, "patch.diff"), os.path.join(d, "demo.py")
